@@ -171,6 +171,12 @@ def classPrio (cls : String) : Nat := if cls == "class=other" then 0 else 1
 
 def run1 (c : Case) : CaseResult := Id.run do
   if c.tag == "empty" then return { verdict := .ok, nontrivial := false }
+  -- the harness runs every case in a child process; an abort (failed assertion, sanitizer report, leak)
+  -- is reported as a `crash` line: no routes were produced for a valid scene
+  if let some l := c.get1 "crash" then
+    let msg := " ".intercalate ((l.toList.drop 4).filter (fun t => !(t.startsWith "c03")))
+    return { verdict := .specfail s!"crash ({l[0]?.getD ""} {l[1]?.getD ""}) in processTransaction on a valid scene [C15 candidate]: {msg}",
+             stats := [("crash", 1)] }
   let some shapesI := parsePolys c "shape" | return { verdict := .diverge "unparsable shape" }
   let some rpolysI := parsePolys c "rpoly" | return { verdict := .diverge "unparsable rpoly" }
   let some routes := parsePolys c "route" | return { verdict := .diverge "unparsable route (non-finite coordinate?)" }
@@ -254,10 +260,12 @@ def run1 (c : Case) : CaseResult := Id.run do
       fails := ⟨20, .diverge s!"orthogonal visibility edge {ptStr p}-{ptStr q} is not axis-parallel"⟩ :: fails
     match firstHitBB tolShrink [] shapesBB (p, q) with
     | some i =>
-      -- edges leaving a connector endpoint that sits inside the bounding box of a non-rectangular
-      -- shape are a consequence of the bounding-box treatment (route-level check covers it): counted only
-      let ex := conns.any fun cn => cn.src == p || cn.src == q || cn.dst == p || cn.dst == q
-      if ex then stats := bumpStats stats "ovisBlockedAtConnEndpoint" 1
+      -- orthogonal edges through a non-rectangular shape whose bounding box contains a connector endpoint
+      -- are a consequence of the bounding-box treatment (the route-level check covers it): counted only
+      let (bx0, by0, bx1, by1) := bbox (shapes.getD i [])
+      let inBB (e : Pt) : Bool := bx0 < e.x && e.x < bx1 && by0 < e.y && e.y < by1
+      let ex := conns.any fun cn => inBB cn.src || inBB cn.dst
+      if ex then stats := bumpStats stats "ovisBlockedConnEndpointInBBox" 1
       else fails := ⟨12, .specfail s!"ovis-edge-blocked: orthogonal visibility edge {ptStr p}-{ptStr q} passes through the interior of shape {i+1}"⟩ :: fails
     | none => pure ()
   -- ---------------------------------------------------------------- naive visibility = model
@@ -296,9 +304,9 @@ def run1 (c : Case) : CaseResult := Id.run do
         if m != has (pairKey oi vi oj vj) then
           ndiv := ndiv + 1
           if ndiv ≤ 3 then
-            fails := ⟨30, .diverge s!"naive visibility: edge [{oi}.{vi}]{ptStr a.pt}-[{oj}.{vj}]{ptStr b.pt} model={m} implementation={!m}"⟩ :: fails
+            fails := ⟨5, .diverge s!"naive visibility: edge [{oi}.{vi}]{ptStr a.pt}-[{oj}.{vj}]{ptStr b.pt} model={m} implementation={!m}"⟩ :: fails
     if ndiv == 0 && modelCount != vis.length then
-      fails := ⟨31, .diverge s!"naive visibility: implementation has {vis.length} edges, model {modelCount} (edge outside the candidate pairs)"⟩ :: fails
+      fails := ⟨6, .diverge s!"naive visibility: implementation has {vis.length} edges, model {modelCount} (edge outside the candidate pairs)"⟩ :: fails
     stats := bumpStats stats "naiveModelEdges" modelCount
   match worst fails with
   | some f => return { verdict := f.verdict, nontrivial := nontrivial, stats := bumpStats stats "failuresInCase" fails.length }
